@@ -3,6 +3,7 @@ package main
 import (
 	"go/token"
 	"go/types"
+	"strings"
 
 	"golang.org/x/tools/go/ssa"
 )
@@ -445,3 +446,277 @@ func isBoolType(t types.Type) bool {
 
 	return ok && b.Info()&types.IsBoolean != 0
 }
+
+// ---------------------------------------------------------------------------
+// R-C40-10: a variable slice bound is bounded by the length of the value it
+// slices (not by a length taken from something else, or taken earlier).
+
+func c40LenOf(v ssa.Value) ssa.Value {
+	c, ok := v.(*ssa.Call)
+	if !ok {
+		return nil
+	}
+
+	b, ok := c.Call.Value.(*ssa.Builtin)
+	if !ok || b.Name() != "len" || len(c.Call.Args) != 1 {
+		return nil
+	}
+
+	return c.Call.Args[0]
+}
+
+// c40SameSeq: a and b are the same sequence value (identical SSA value, or one
+// local cell).
+func c40SameSeq(a, b ssa.Value) bool {
+	if a == nil || b == nil {
+		return false
+	}
+
+	if a == b {
+		return true
+	}
+
+	ra, rb := resolveLocal(a), resolveLocal(b)
+	if ra != nil && ra == rb {
+		return true
+	}
+
+	// two loads of one local cell with no store to the cell after the first
+	la, okA := a.(*ssa.UnOp)
+	lb, okB := b.(*ssa.UnOp)
+
+	if okA && okB && la.Op == token.MUL && lb.Op == token.MUL && la.X == lb.X {
+		if cell, isAlloc := la.X.(*ssa.Alloc); isAlloc {
+			stored := func(from ssa.Instruction) bool {
+				return pathAvoiding(from, nil, func(ssa.Instruction) bool { return false }, func(i ssa.Instruction) bool {
+					st, ok := i.(*ssa.Store)
+
+					return ok && st.Addr == ssa.Value(cell)
+				}) != nil
+			}
+
+			return !stored(la) || !stored(lb)
+		}
+	}
+
+	return false
+}
+
+// c40RequestInt: v is computed from a number the request supplies: the paging
+// values of the session (Start, Limit) or an integer parsed from text.
+func c40RequestInt(v ssa.Value, seen map[ssa.Value]bool) bool {
+	if v == nil || seen[v] {
+		return false
+	}
+
+	seen[v] = true
+
+	switch x := v.(type) {
+	case *ssa.UnOp:
+		if fa, ok := x.X.(*ssa.FieldAddr); ok {
+			name := fieldName(fa.X.Type(), fa.Field)
+			if (name == "Start" || name == "Limit") && strings.HasSuffix(fa.X.Type().String(), "router.Session") {
+				return true
+			}
+		}
+
+		return c40RequestInt(x.X, seen)
+	case *ssa.Phi:
+		for _, e := range x.Edges {
+			if c40RequestInt(e, seen) {
+				return true
+			}
+		}
+	case *ssa.BinOp:
+		return c40RequestInt(x.X, seen) || c40RequestInt(x.Y, seen)
+	case *ssa.Convert:
+		return c40RequestInt(x.X, seen)
+	case *ssa.ChangeType:
+		return c40RequestInt(x.X, seen)
+	case *ssa.Extract:
+		if c, ok := x.Tuple.(*ssa.Call); ok && x.Index == 0 {
+			id := callID(c.Common())
+
+			return id == "strconv.Atoi" || id == "strconv.ParseInt" || id == "strconv.ParseUint" || strings.HasSuffix(id, "util/strings.Atoi")
+		}
+	case *ssa.Alloc:
+		for _, ref := range *x.Referrers() {
+			if st, ok := ref.(*ssa.Store); ok && st.Addr == ssa.Value(x) && c40RequestInt(st.Val, seen) {
+				return true
+			}
+		}
+	}
+
+	return false
+}
+
+// c40FactBounds: the facts say bound <= len(x).
+func c40FactBounds(facts []Fact, bound, x ssa.Value) bool {
+	for _, f := range facts {
+		if f.Kind != "cmp" {
+			continue
+		}
+
+		switch f.Op {
+		case token.LEQ, token.LSS:
+			if f.X == bound && c40SameSeq(c40LenOf(f.Y), x) {
+				return true
+			}
+		case token.GEQ, token.GTR:
+			if f.Y == bound && c40SameSeq(c40LenOf(f.X), x) {
+				return true
+			}
+		}
+	}
+
+	return false
+}
+
+// c40BoundWithin: bound <= len(x) at block at.
+func c40BoundWithin(bound, x ssa.Value, at *ssa.BasicBlock, depth int) bool {
+	if depth > 5 || bound == nil {
+		return false
+	}
+
+	if k, isC := constInt(bound); isC && k == 0 {
+		return true
+	}
+
+	if c40SameSeq(c40LenOf(bound), x) {
+		return true
+	}
+
+	if c40FactBounds(dominatingFacts(at), bound, x) {
+		return true
+	}
+
+	switch b := bound.(type) {
+	case *ssa.Phi:
+		for i, e := range b.Edges {
+			pred := b.Block().Preds[i]
+
+			if c40FactBounds(edgeFactsInto(pred, b.Block()), e, x) || c40FactBounds(dominatingFacts(pred), e, x) {
+				continue
+			}
+
+			if !c40BoundWithin(e, x, pred, depth+1) {
+				return false
+			}
+		}
+
+		return true
+	case *ssa.BinOp:
+		// i+1 where i < len(x)
+		if b.Op == token.ADD {
+			if k, isC := constInt(b.Y); isC && k == 1 {
+				for _, f := range dominatingFacts(at) {
+					if f.Kind == "cmp" && ((f.Op == token.LSS && f.X == b.X && c40SameSeq(c40LenOf(f.Y), x)) || (f.Op == token.GTR && f.Y == b.X && c40SameSeq(c40LenOf(f.X), x))) {
+						return true
+					}
+				}
+			}
+		}
+
+		// v-k, v/k, v%k with v within
+		if b.Op == token.SUB || b.Op == token.QUO || b.Op == token.REM {
+			if k, isC := constInt(b.Y); isC && k >= 0 {
+				return c40BoundWithin(b.X, x, at, depth+1)
+			}
+		}
+	case *ssa.Call:
+		// an index found inside x, or min(…, len(x))
+		id := callID(b.Common())
+		if strings.HasPrefix(id, "strings.Index") || strings.HasPrefix(id, "strings.LastIndex") || strings.HasPrefix(id, "bytes.Index") || strings.HasPrefix(id, "bytes.LastIndex") {
+			return len(b.Call.Args) > 0 && c40SameSeq(b.Call.Args[0], x)
+		}
+
+		if bi, ok := b.Call.Value.(*ssa.Builtin); ok && bi.Name() == "min" {
+			for _, a := range b.Call.Args {
+				if c40BoundWithin(a, x, at, depth+1) {
+					return true
+				}
+			}
+		}
+	case *ssa.Extract:
+		// n, err := r.Read(buf) ; buf[:n]
+		if c, ok := b.Tuple.(*ssa.Call); ok && b.Index == 0 {
+			name := ""
+			if c.Common().IsInvoke() {
+				name = c.Common().Method.Name()
+			} else if callee := c.Common().StaticCallee(); callee != nil {
+				name = callee.Name()
+			}
+
+			if name == "Read" || name == "ReadAt" || name == "Write" || name == "ReadFull" || name == "ReadAtLeast" {
+				for _, a := range c.Call.Args {
+					if c40SameSeq(a, x) {
+						return true
+					}
+
+					if sl, ok := a.(*ssa.Slice); ok && c40SameSeq(sl.X, x) {
+						return true
+					}
+				}
+			}
+		}
+	}
+
+	return false
+}
+
+func c40VariableBounds(w *World, r *Report, fns []*ssa.Function) {
+	r.Rule("R-C40-10", "a slice bound the request supplies is within the sliced value: for x[lo:hi] in a function reachable from a handler, with lo or hi computed from the session's paging values (Start, Limit) or from an integer parsed from text, the bound is compared (<=, <) with len(x) of that same x on every path, or replaced by it — not with a length taken from another value or taken before x changed", 6)
+
+	for _, fn := range fns {
+		count := map[string]int{}
+
+		allInstrs(fn, func(in ssa.Instruction) {
+			sl, ok := in.(*ssa.Slice)
+			if !ok {
+				return
+			}
+
+			if p, isPtr := sl.X.Type().Underlying().(*types.Pointer); isPtr {
+				if _, isArr := p.Elem().Underlying().(*types.Array); isArr {
+					return // x := arr[:] and friends: bounds are compile-time checked or constants
+				}
+			}
+
+			for _, b := range []struct {
+				v    ssa.Value
+				name string
+			}{{sl.Low, "low"}, {sl.High, "high"}} {
+				if b.v == nil {
+					continue
+				}
+
+				if _, isC := constInt(b.v); isC {
+					continue
+				}
+
+				if !c40RequestInt(b.v, map[ssa.Value]bool{}) {
+					continue // only numbers the request supplies; the other idioms are R-C40-1's and the lexers' own business
+				}
+
+				key := fnKey(fn) + "|" + b.name + " bound of " + valueName(sl.X)
+				count[key]++
+
+				if n := count[key]; n > 1 {
+					key += "#" + sprintInt(n)
+				}
+
+				if c40BoundWithin(b.v, sl.X, sl.Block(), 0) {
+					r.Discharge("R-C40-10", key, w.pos(sl.Pos()), "bounded by the length of the sliced value")
+				} else if why, ok := c40BoundOK[key]; ok {
+					r.Except("R-C40-10", key, w.pos(sl.Pos()), why)
+				} else {
+					r.Violate("R-C40-10", key, w.pos(sl.Pos()), "the "+b.name+" bound "+valueName(b.v)+" is not shown to be within the length of the value it slices (a test against another length, or against a length taken before the value changed, does not bound it): a request that makes it larger panics the handler with 'slice bounds out of range'")
+				}
+			}
+		})
+	}
+}
+
+// c40BoundOK: variable slice bounds that are within range for a reason the
+// prover does not see; each read and justified.
+var c40BoundOK = map[string]string{}
